@@ -1,8 +1,8 @@
 package main
 
 import (
-	"math"
 	"fmt"
+	"math"
 )
 
 // fixed templates that end early or leave per-render state dirty
@@ -61,7 +61,7 @@ func init() {
 		var cases []*RCase
 		nH := r.N(1500, 40000)
 		for h := 0; h < nH; h++ {
-			c := &RCase{CheckShape: true, KeepOut: r.Rng.Intn(2) == 0, Pool: r.Rng.Intn(3) == 0}
+			c := &RCase{CheckShape: true, KeepOut: r.Rng.Intn(2) == 0, Pool: r.Rng.Intn(3) == 0, Entries: r.Rng.Intn(2) == 0}
 			c.Tpls = append(c.Tpls, c05Fixed...)
 			keys := []string{}
 			for _, t := range c05Fixed {
